@@ -162,13 +162,13 @@ pub fn base_yaml(bits: u32, servers: u8) -> String {
         s.push_str("  schemas:\n    BaseOnly:\n      type: object\n      properties:\n        id:\n          type: string\n    obj:\n      type: integer\n      description: the base's obj\n");
     }
     if on(F_SECSCHEMES) {
-        s.push_str("  securitySchemes:\n    apiKey:\n      type: apiKey\n      name: X-Api-Key\n      in: header\n    oauth:\n      type: oauth2\n      flows:\n        implicit:\n          authorizationUrl: https://example.com/auth\n          scopes:\n            read: read access\n            write: write access\n");
+        s.push_str("  securitySchemes:\n    apiKey:\n      type: apiKey\n      name: X-Api-Key\n      in: header\n    bearer:\n      type: http\n      scheme: bearer\n    oauth:\n      type: oauth2\n      flows:\n        implicit:\n          authorizationUrl: https://example.com/auth\n          scopes:\n            read: read access\n            write: write access\n");
     }
     if on(F_PARAMS) {
         s.push_str("  parameters:\n    limit:\n      name: limit\n      in: query\n      description: page size\n      schema:\n        type: integer\n        minimum: 1\n    trace:\n      name: X-Trace\n      in: header\n      schema:\n        type: string\n");
     }
     if on(F_RESPONSES) {
-        s.push_str("  responses:\n    NotFound:\n      description: not found\n      content:\n        application/json:\n          schema:\n            type: object\n    Empty:\n      description: nothing\n");
+        s.push_str("  responses:\n    NotFound:\n      description: not found\n      content:\n        application/json:\n          schema:\n            $ref: '#/components/schemas/BaseOnly'\n    Empty:\n      description: nothing\n");
     }
     if on(F_HEADERS) {
         s.push_str("  headers:\n    X-Rate-Limit:\n      description: calls per hour\n      schema:\n        type: integer\n");
@@ -196,7 +196,7 @@ pub struct Prog {
 pub const PROGRAMS: [Prog; 6] = [
     Prog {
         name: "refs",
-        text: "let @obj = { 'id! int, 'name str, 'self /objs/{ 'id int } };\nlet @list = [@obj];\nlet tree = rec x { 'value @obj, 'children [x] };\nres /objs on get -> <@list>;\nres /objs/{ 'id int } on get -> <@obj>, put : <@obj> -> <@obj>;\nres /tree on (get -> <tree>) `tags: [from-the-program, another]`;\n",
+        text: "let @obj = { 'id! int, 'name str, 'self /objs/{ 'id int } };\nlet @list = [@obj];\nlet tree = rec x { 'value @obj, 'children [x] };\nres /objs on get -> <@list>;\nres /objs/{ 'id int } on get -> <@obj>, put : <headers={ 'X-Api-Key str, 'Authorization str }, @obj> -> <@obj>;\nres /tree on (get -> <tree>) `tags: [from-the-program, another]`;\n",
     },
     Prog {
         name: "empty",
